@@ -45,14 +45,14 @@ func has(xs []string, x string) bool {
 }
 
 type evObl struct {
-	Name    string `json:"name"`
-	Kind    string `json:"kind"`
-	Clause  string `json:"clause"`
-	Status  string `json:"status"`
-	Solver  string `json:"solver"`
-	Ms      int64  `json:"ms"`
-	VCBytes int    `json:"vc_bytes"`
-	Pos     string `json:"pos,omitempty"`
+	Name    string            `json:"name"`
+	Kind    string            `json:"kind"`
+	Clause  string            `json:"clause"`
+	Status  string            `json:"status"`
+	Solver  string            `json:"solver"`
+	Ms      int64             `json:"ms"`
+	VCBytes int               `json:"vc_bytes"`
+	Pos     string            `json:"pos,omitempty"`
 	Answers map[string]string `json:"answers,omitempty"`
 }
 
@@ -162,8 +162,13 @@ func cmdCheck(args []string) {
 	abstracted := map[string]int{}
 	usedContracts := map[string]int{}
 	var warnings []string
+	var trusted []string
 	for _, vc := range vcs {
 		if vc.Err != nil {
+			continue
+		}
+		if vc.Trusted {
+			trusted = append(trusted, vc.Contract.Func)
 			continue
 		}
 		funcs[vc.Contract.Func] = true
@@ -276,24 +281,24 @@ func cmdCheck(args []string) {
 		"wall_s":      wall,
 		"violations":  violations,
 		"coverage": map[string]interface{}{
-			"obligations":              nObl,
-			"discharged":               nDis,
-			"checker_cmd":              "/verif/check " + *prop + " " + *tier,
-			"trusted_base":             trustedBase(assumed, abstracted),
-			"functions_under_contract": fl,
-			"vacuity_covers":           map[string]int{"checked": nCover, "satisfiable": nCoverOK, "inconclusive": nCoverInc},
-			"known_findings":           known,
-			"solver_time_s":            float64(solverMs) / 1000,
-			"phase_s":                  map[string]float64{"load": tLoad, "vcgen": tBuild, "solve": tSolve},
-			"callee_contracts_used":    keysOf(usedContracts),
+			"obligations":               nObl,
+			"discharged":                nDis,
+			"checker_cmd":               "/verif/check " + *prop + " " + *tier,
+			"trusted_base":              trustedBase(assumed, abstracted),
+			"functions_under_contract":  fl,
+			"vacuity_covers":            map[string]int{"checked": nCover, "satisfiable": nCoverOK, "inconclusive": nCoverInc},
+			"known_findings":            known,
+			"solver_time_s":             float64(solverMs) / 1000,
+			"phase_s":                   map[string]float64{"load": tLoad, "vcgen": tBuild, "solve": tSolve},
+			"callee_contracts_used":     keysOf(usedContracts),
 			"assumed_library_contracts": keysOf(assumed),
-			"abstracted_calls":         keysOf(abstracted),
-			"tool_limits":              toolLimits,
-			"warnings":                 dedup(warnings),
-			"per_obligation":           evs,
-			"samples":                  samples,
-			"back_ends":                []string{"z3 5.1.0 (z3-new)", "cvc5 1.0.x", "z3 4.8.12"},
-			"integers":                 "Go machine integers as SMT bit-vectors (wrap-around, truncating conversions, signed/unsigned comparison exact)",
+			"abstracted_calls":          keysOf(abstracted),
+			"tool_limits":               toolLimits,
+			"warnings":                  dedup(warnings),
+			"per_obligation":            evs,
+			"samples":                   samples,
+			"back_ends":                 []string{"z3 5.1.0 (z3-new)", "cvc5 1.0.x", "z3 4.8.12"},
+			"integers":                  "Go machine integers as SMT bit-vectors (wrap-around, truncating conversions, signed/unsigned comparison exact)",
 		},
 		"assumptions": assumptionsText(assumed, abstracted),
 	}
